@@ -24,11 +24,11 @@ import (
 func init() {
 	hx.Register(&hx.Prop{
 		ID: "C02",
-		Rule: "exhaustive: every reference-capable position (top-level components of the nine kinds, path items, every nested child slot incl. the never-walked ones) × target location " +
+		Rule: "exhaustive: every reference-capable position (top-level components of the nine kinds, path items, every nested child slot) × target location " +
 			"(same document, external fragment in same/parent/sibling/child directory, whole file in another directory whose object holds a relative ref, untyped x- extension) × chain length 1..2 × path spellings " +
 			"(x.json, ./x.json, ../d/x.json, d/../x.json, absolute, doubled slash) × root directory depth × entry point (file, data+path, data, http URI); shapes: diamond, self and mutual cycles per kind, " +
 			"callback/path-item cycles, pointer escapes (~0, ~1, ~01 with decoy siblings), dangling (component, file, nil field), wrong kind, scalar target, slash-less fragment, pure $ref cycle, '#', " +
-			"the #29 two-directory layout, kind clash; then a seeded random stream of 2..4-file layouts with random components whose child slots are inline values or references to random components by random spelling. " +
+			"the #29 two-directory layout, kind clash per slot (same document / document loaded through the reference), path-item chains (2..3 hops, across directories, cyclic, to a whole file, through a callback), '#/…' inside whole-file elements per kind, pointers through a header, 3-hop chains per kind; then a seeded random stream of 2..4-file layouts with random components whose child slots are inline values or references to random components by random spelling. " +
 			"A case is non-trivial when the driver reports at least one branch (it always reports the reference forms, kinds and classes present).",
 		Exhaustive: true,
 		Gen:        genC02,
@@ -42,7 +42,8 @@ func init() {
 			"the in-memory reader resolves a location like a file system (path.Clean before lookup)",
 			"value objects are generated in the marshaller's normal form, so that Value marshals back to the raw object",
 			"IsExternalRefsAllowed = true",
-			"RefPath() is recorded but not compared (it depends on visiting order, see report)",
+			"no null members and no parameter with both schema and content are generated (the loader rejects them; below an untyped reference target it swallows the error and leaves the reference unresolved)",
+			"RefPath() is not compared (for a reference met first through a backtrack callback it depends on the visiting order)",
 		},
 	})
 }
@@ -443,46 +444,49 @@ type c02Slot struct {
 	name   string
 	path   []string // "[]" wraps the child in a one-element array
 	child  string
-	walked bool
 }
 
+// every reference-capable child position of every kind (all of them are walked since cbb0d05; the last nine
+// are the positions that were not: DESIGN §7 #13)
 var c02Slots = []c02Slot{
-	{"schema", "properties", []string{"properties", "p"}, "schema", true},
-	{"schema", "items", []string{"items"}, "schema", true},
-	{"schema", "additionalProperties", []string{"additionalProperties"}, "schema", true},
-	{"schema", "not", []string{"not"}, "schema", true},
-	{"schema", "allOf", []string{"allOf", "[]"}, "schema", true},
-	{"schema", "anyOf", []string{"anyOf", "[]"}, "schema", true},
-	{"schema", "oneOf", []string{"oneOf", "[]"}, "schema", true},
-	{"header", "schema", []string{"schema"}, "schema", true},
-	{"parameter", "schema", []string{"schema"}, "schema", true},
-	{"parameter", "content", []string{"content", "application/json", "schema"}, "schema", true},
-	{"requestBody", "schema", []string{"content", "application/json", "schema"}, "schema", true},
-	{"requestBody", "example", []string{"content", "application/json", "examples", "e"}, "example", true},
-	{"response", "header", []string{"headers", "h"}, "header", true},
-	{"response", "schema", []string{"content", "application/json", "schema"}, "schema", true},
-	{"response", "example", []string{"content", "application/json", "examples", "e"}, "example", true},
-	{"response", "link", []string{"links", "l"}, "link", true},
-	{"callback", "pathItem", []string{"{$request.body#/v}"}, "pathItem", true},
-	{"pathItem", "parameter", []string{"parameters", "[]"}, "parameter", true},
-	{"pathItem", "opParameter", []string{"get", "parameters", "[]"}, "parameter", true},
-	{"pathItem", "requestBody", []string{"post", "requestBody"}, "requestBody", true},
-	{"pathItem", "response", []string{"get", "responses", "201"}, "response", true},
-	{"pathItem", "callback", []string{"get", "callbacks", "cb"}, "callback", true},
-	// positions no resolver visits (#13)
-	{"header", "example", []string{"examples", "e"}, "example", false},
-	{"header", "contentSchema", []string{"content", "application/json", "schema"}, "schema", false},
-	{"parameter", "example", []string{"examples", "e"}, "example", false},
-	{"requestBody", "encodingHeader", []string{"content", "application/json", "encoding", "f", "headers", "h"}, "header", false},
-	{"response", "encodingHeader", []string{"content", "application/json", "encoding", "f", "headers", "h"}, "header", false},
+	{"schema", "properties", []string{"properties", "p"}, "schema"},
+	{"schema", "items", []string{"items"}, "schema"},
+	{"schema", "additionalProperties", []string{"additionalProperties"}, "schema"},
+	{"schema", "not", []string{"not"}, "schema"},
+	{"schema", "allOf", []string{"allOf", "[]"}, "schema"},
+	{"schema", "anyOf", []string{"anyOf", "[]"}, "schema"},
+	{"schema", "oneOf", []string{"oneOf", "[]"}, "schema"},
+	{"header", "schema", []string{"schema"}, "schema"},
+	{"parameter", "schema", []string{"schema"}, "schema"},
+	{"parameter", "content", []string{"content", "application/json", "schema"}, "schema"},
+	{"requestBody", "schema", []string{"content", "application/json", "schema"}, "schema"},
+	{"requestBody", "example", []string{"content", "application/json", "examples", "e"}, "example"},
+	{"response", "header", []string{"headers", "h"}, "header"},
+	{"response", "schema", []string{"content", "application/json", "schema"}, "schema"},
+	{"response", "example", []string{"content", "application/json", "examples", "e"}, "example"},
+	{"response", "link", []string{"links", "l"}, "link"},
+	{"callback", "pathItem", []string{"{$request.body#/v}"}, "pathItem"},
+	{"pathItem", "parameter", []string{"parameters", "[]"}, "parameter"},
+	{"pathItem", "opParameter", []string{"get", "parameters", "[]"}, "parameter"},
+	{"pathItem", "requestBody", []string{"post", "requestBody"}, "requestBody"},
+	{"pathItem", "response", []string{"get", "responses", "201"}, "response"},
+	{"pathItem", "callback", []string{"get", "callbacks", "cb"}, "callback"},
+	// formerly unwalked
+	{"header", "example", []string{"examples", "e"}, "example"},
+	{"header", "contentSchema", []string{"content", "application/json", "schema"}, "schema"},
+	{"header", "contentExample", []string{"content", "application/json", "examples", "e"}, "example"},
+	{"header", "encodingHeader", []string{"content", "application/json", "encoding", "f", "headers", "h"}, "header"},
+	{"parameter", "example", []string{"examples", "e"}, "example"},
+	{"parameter", "contentExample", []string{"content", "application/json", "examples", "e"}, "example"},
+	{"parameter", "encodingHeader", []string{"content", "application/json", "encoding", "f", "headers", "h"}, "header"},
+	{"requestBody", "encodingHeader", []string{"content", "application/json", "encoding", "f", "headers", "h"}, "header"},
+	{"response", "encodingHeader", []string{"content", "application/json", "encoding", "f", "headers", "h"}, "header"},
 }
 
 func c02Set2(obj jm, slot c02Slot, child any) jm {
 	cur := obj
-	if slot.parent == "parameter" && slot.name == "content" {
-		delete(obj, "schema")
-	}
-	if slot.parent == "header" && slot.name == "contentSchema" {
+	if (slot.parent == "parameter" || slot.parent == "header") && slot.path[0] == "content" {
+		// the loader rejects a parameter that has both `schema` and `content`
 		delete(obj, "schema")
 	}
 	if slot.parent == "pathItem" && slot.path[0] == "post" {
@@ -629,9 +633,9 @@ func c02Spell(from, to string, style int) string {
 
 func genC02(ctx *hx.Ctx, emit func(hx.Case)) {
 	c02Exhaustive(ctx, emit)
-	n := 1500
+	n := 3000
 	if ctx.Thorough() {
-		n = 15000
+		n = 24000
 	}
 	for i := 0; i < n; i++ {
 		emit(c02Random(ctx.Rng))
@@ -720,7 +724,7 @@ func c02Exhaustive(ctx *hx.Ctx, emit func(hx.Case)) {
 					obj := c02Val(kind, "W@"+lc.target)
 					for si := range c02Slots {
 						s := c02Slots[si]
-						if s.parent == kind && s.walked {
+						if s.parent == kind {
 							side := path.Dir(lc.target) + "/side.json"
 							c02Put(l.file(side), s.child, c02TopName(s.child, "N"), c02Val(s.child, "N@"+side))
 							// decoy with the same name next to the referring document
@@ -782,12 +786,9 @@ func c02Shapes(emit func(hx.Case)) {
 		c02Put(l.file(root), kind, c02TopName(kind, "R2"), c02Ref("../c/y.json"+c02Ptr(kind, c02TopName(kind, "B")), "r2"))
 		emit(l.toCase())
 	}
-	// cycles through every walked slot whose child kind can reach the parent kind again
+	// cycles through every slot whose child kind can reach the parent kind again
 	for si := range c02Slots {
 		s := c02Slots[si]
-		if !s.walked {
-			continue
-		}
 		for _, ext := range []bool{false, true} {
 			// parent P holds (in slot s) a reference to child C; C (if it can) holds a reference back to P
 			back := c02BackSlot(s.child, s.parent)
@@ -961,12 +962,142 @@ func c02Shapes(emit func(hx.Case)) {
 		c02Put(l.file(root), "header", "H", c02Ref("../b/h.json", "r1"))
 		emit(l.toCase())
 	}
+	c02ShapesRound3(emit)
 }
 
-// a walked slot of kind `from` whose child kind is `to`
+// shapes added when the model followed the repaired loader (a04fe6c, 9b25d89, f972c33, cbb0d05)
+func c02ShapesRound3(emit func(hx.Case)) {
+	root := "/r/a/root.json"
+	// (a) kind clash: a text in progress as kind P met again as kind C in a child slot of the target — in the same
+	//     document (the position is walked again: load error) and in a document loaded through that reference
+	//     (never walked again: F-C02-48), for every slot whose child kind differs from the parent kind
+	for si := range c02Slots {
+		s := c02Slots[si]
+		if s.parent == s.child {
+			continue
+		}
+		for _, ext := range []bool{false, true} {
+			l := newLayout("file", root)
+			tf, text := root, c02Ptr(s.parent, c02TopName(s.parent, "B"))
+			if ext {
+				tf = "/r/a/x.json"
+				text = "x.json" + text
+			}
+			b := c02Val(s.parent, "B")
+			c02Set2(b, s, c02Ref(text, "clash"))
+			c02Put(l.file(tf), s.parent, c02TopName(s.parent, "B"), b)
+			c02Put(l.file(root), s.parent, c02TopName(s.parent, "A"), c02Ref(text, "r1"))
+			emit(l.toCase())
+		}
+	}
+	// (b) path-item chains: lengths 2 and 3, hops inside one document and across directories, the last path item
+	//     holding a parameter given relative to ITS directory (with a decoy next to the first hop), chains that
+	//     close into a cycle, a chain that ends in a whole-file path item, a chain reached through a callback
+	for _, n := range []int{2, 3} {
+		for _, spread := range []bool{false, true} {
+			l := newLayout("file", root)
+			files := []string{root, root, root, root}
+			if spread {
+				files = []string{root, "/r/b/x.json", "/r/c/y.json", "/r/d/z.json"}
+			}
+			last := files[n]
+			pi := c02Val("pathItem", "end@"+last)
+			if spread {
+				side := path.Dir(last) + "/side.json"
+				c02Put(l.file(side), "parameter", "N", c02Val("parameter", "N@"+side))
+				c02Put(l.file(path.Dir(files[1])+"/side.json"), "parameter", "N", c02Val("parameter", "decoy"))
+				c02Set2(pi, c02Slots[17], c02Ref("side.json#/components/parameters/N", "leaf"))
+			}
+			c02Put(l.file(last), "pathItem", "/p"+strconv.Itoa(n), pi)
+			for i := n - 1; i >= 0; i-- {
+				text := c02Ptr("pathItem", "/p"+strconv.Itoa(i+1))
+				if files[i+1] != files[i] {
+					text = c02Spell(files[i], files[i+1], 0) + text
+				}
+				c02Put(l.file(files[i]), "pathItem", "/p"+strconv.Itoa(i), c02Ref(text, "h"+strconv.Itoa(i)))
+			}
+			emit(l.toCase())
+		}
+	}
+	{
+		l := newLayout("file", root) // a → b → a
+		c02Put(l.file(root), "pathItem", "/a", c02Ref("#/paths/~1b", "r1"))
+		c02Put(l.file(root), "pathItem", "/b", c02Ref("#/paths/~1a", "r2"))
+		emit(l.toCase())
+		l = newLayout("file", root) // a → b → b.json (whole file) whose parameter is relative to b.json
+		c02Put(l.file(root), "pathItem", "/a", c02Ref("#/paths/~1b", "r1"))
+		c02Put(l.file(root), "pathItem", "/b", c02Ref("../b/pi.json", "r2"))
+		pi := c02Val("pathItem", "whole")
+		c02Set2(pi, c02Slots[17], c02Ref("side.json#/components/parameters/N", "leaf"))
+		l.raw("/r/b/pi.json", pi)
+		c02Put(l.file("/r/b/side.json"), "parameter", "N", c02Val("parameter", "N@b"))
+		c02Put(l.file("/r/a/side.json"), "parameter", "N", c02Val("parameter", "decoy"))
+		emit(l.toCase())
+		l = newLayout("file", root) // a callback whose path item is a chain
+		cb := c02Val("callback", "cb")
+		c02Set2(cb, c02Slots[16], c02Ref("#/paths/~1b", "r1"))
+		c02Put(l.file(root), "callback", "CB", cb)
+		c02Put(l.file(root), "pathItem", "/b", c02Ref("../b/x.json#/paths/~1c", "r2"))
+		c02Put(l.file("/r/b/x.json"), "pathItem", "/c", c02Val("pathItem", "c"))
+		emit(l.toCase())
+	}
+	// (c) '#/…' inside a whole-file element, per kind with a schema slot: the referrer has / has not an object at
+	//     that pointer (F-C02-45: drilled into the referrer first; the raw re-read of the element file since f972c33)
+	for _, kind := range []string{"header", "parameter", "requestBody", "response", "schema"} {
+		for _, rootHas := range []bool{true, false} {
+			l := newLayout("file", root)
+			if rootHas {
+				l.file(root)["definitions"] = jm{"S": jm{"type": "string", "description": "root's S"}}
+			}
+			obj := c02Val(kind, "elem")
+			for si := range c02Slots {
+				if c02Slots[si].parent == kind && c02Slots[si].child == "schema" {
+					c02Set2(obj, c02Slots[si], c02Ref("#/definitions/S", "r2"))
+					break
+				}
+			}
+			obj["definitions"] = jm{"S": jm{"type": "integer", "description": "element's S"}}
+			l.raw("/r/b/e.json", obj)
+			c02Put(l.file(root), kind, "E", c02Ref("../b/e.json", "r1"))
+			emit(l.toCase())
+		}
+	}
+	// (d) pointers through a header (no typed drill-down: the raw re-read of the REFERENCED document), present and absent
+	for _, ext := range []bool{false, true} {
+		for _, present := range []bool{true, false} {
+			l := newLayout("file", root)
+			tf, pre := root, ""
+			if ext {
+				tf, pre = "/r/b/x.json", "../b/x.json"
+			}
+			h := jm{"description": "H"}
+			if present {
+				h["schema"] = jm{"type": "integer", "description": "H.schema@" + tf}
+			}
+			c02Put(l.file(tf), "header", "H", h)
+			if ext {
+				// the referring document has a header of the same name WITH a schema
+				c02Put(l.file(root), "header", "H", jm{"description": "root's H", "schema": jm{"type": "string", "description": "root's H.schema"}})
+			}
+			c02Put(l.file(root), "schema", "A", c02Ref(pre+"#/components/headers/H/schema", "r1"))
+			emit(l.toCase())
+		}
+	}
+	// (g) chains of length 3 for every kind, alternating internal and external hops
+	for _, kind := range c02Kinds {
+		l := newLayout("file", root)
+		c02Put(l.file("/r/c/y.json"), kind, c02TopName(kind, "V"), c02Val(kind, "V@y"))
+		c02Put(l.file("/r/b/x.json"), kind, c02TopName(kind, "M2"), c02Ref("../c/y.json"+c02Ptr(kind, c02TopName(kind, "V")), "m2"))
+		c02Put(l.file("/r/b/x.json"), kind, c02TopName(kind, "M1"), c02Ref(c02Ptr(kind, c02TopName(kind, "M2")), "m1"))
+		c02Put(l.file(root), kind, c02TopName(kind, "R"), c02Ref("../b/x.json"+c02Ptr(kind, c02TopName(kind, "M1")), "r1"))
+		emit(l.toCase())
+	}
+}
+
+// a slot of kind `from` whose child kind is `to`
 func c02BackSlot(from, to string) *c02Slot {
 	for i := range c02Slots {
-		if c02Slots[i].parent == from && c02Slots[i].child == to && c02Slots[i].walked {
+		if c02Slots[i].parent == from && c02Slots[i].child == to {
 			return &c02Slots[i]
 		}
 	}
@@ -1067,19 +1198,11 @@ func c02Random(r *hx.Rng) hx.Case {
 				continue
 			}
 			p := 35
-			if !s.walked {
-				p = 4
-			}
-			if kind == "parameter" && s.name == "content" {
-				p = 10
+			if s.path[0] == "content" && (kind == "parameter" || kind == "header") {
+				p = 10 // removes the inline schema
 			}
 			if !r.Chance(p) {
 				continue
-			}
-			if (kind == "parameter" && s.name == "content") || (kind == "header" && s.name == "contentSchema") {
-				if _, has := v["examples"]; has {
-					continue
-				}
 			}
 			var child any
 			if depth >= 2 || r.Chance(60) {
